@@ -988,10 +988,12 @@ pub fn judge(x: &X, obs: &Obs, from_typer: bool) -> String {
 
 /// compile a whole program to HLSL text (no pipeline mode), or `!error ...` / `!panic ...`
 pub fn emit_hlsl(src: &str) -> String {
+    emit_target(src, rssl::Target::HlslForDirectX)
+}
+
+pub fn emit_target(src: &str, target: rssl::Target) -> String {
     let mut inc = MemFiles(vec![("main.rssl".to_string(), src.to_string())]);
-    let r = guard(|| {
-        rssl::compile(rssl::CompileArgs::new("main.rssl", &mut inc, rssl::Target::HlslForDirectX).no_pipeline_mode())
-    });
+    let r = guard(|| rssl::compile(rssl::CompileArgs::new("main.rssl", &mut inc, target).no_pipeline_mode()));
     match r {
         Err(p) => format!("!panic {}", norm_panic(&p)),
         Ok(Err(e)) => format!("!error {}", e),
@@ -1744,6 +1746,10 @@ pub fn run(args: &Args, out: &mut Out) {
                 ["C13.dump", src] => {
                     // probing aid (not part of any check): HLSL text the compiler emits for a whole program
                     let text = emit_hlsl(src);
+                    out.case(&line, &one_line(&text), "SKIP:probe");
+                }
+                ["C13.dumpmsl", src] => {
+                    let text = emit_target(src, rssl::Target::Msl);
                     out.case(&line, &one_line(&text), "SKIP:probe");
                 }
                 ["C13.pos", pos, src, ..] => run_position(&w, pos, src, out, &mut hist),
